@@ -166,6 +166,8 @@ pub enum Strategy {
 }
 
 pub struct ExecResult {
+    /// decoded atomic accesses (only with keep_ops)
+    pub ops: Vec<Value>,
     pub steps: Vec<Step>,
     pub log: Vec<Rec>,
     pub runaway: bool,
@@ -233,7 +235,7 @@ pub fn execute(scn: &Scenario, strat: &mut Strategy, opts: &ExecOpts, out_setup:
                 o.push(e);
             }
         }
-        return ExecResult { steps: vec![], log: vec![], runaway: false, solo: None };
+        return ExecResult { ops: vec![], steps: vec![], log: vec![], runaway: false, solo: None };
     }
     let mut setup_held: Held = vec![];
     for op in &scn.setup {
@@ -308,6 +310,10 @@ pub fn execute(scn: &Scenario, strat: &mut Strategy, opts: &ExecOpts, out_setup:
                     hook::rec_event(cev);
                     let res = exec(alloc, &cop);
                     hook::rec_event(merge(res.clone(), json!({"ev":"ret","t":t})));
+                    if res["res"] == "panic" {
+                        // the thread is gone (as in the FINE model): it does not run the rest of its program
+                        break;
+                    }
                     if res["res"] == "ok" {
                         match (&cop, op) {
                             (Op::Get(o, ..), _) => {
@@ -391,6 +397,15 @@ pub fn execute(scn: &Scenario, strat: &mut Strategy, opts: &ExecOpts, out_setup:
     });
     hook::rec_set_on_write(None);
     let mut log = hook::rec_take();
+    let mut ops = vec![];
+    if opts.keep_ops {
+        let lay = crate::decode::Layout::of(&w);
+        for r in &log {
+            if let Rec::Op(o) = r {
+                ops.push(decode_op(&lay, o));
+            }
+        }
+    }
     if opts.crash && !runaway {
         // crash "at the end"
         hook::set_mode(hook::OFF);
@@ -406,6 +421,7 @@ pub fn execute(scn: &Scenario, strat: &mut Strategy, opts: &ExecOpts, out_setup:
         None
     };
     ExecResult {
+        ops,
         steps,
         log,
         runaway,
@@ -473,6 +489,9 @@ pub struct Explore<'a> {
     /// schedules executed so far (kept for solo runs), capped
     pub bases: Vec<Vec<Step>>,
     pub keep_bases: usize,
+    /// distinct access sequences (one JSON array per line), for step conformance with the FINE model
+    pub ops_lines: Vec<String>,
+    pub ops_seen: HashSet<u64>,
 }
 
 fn hash_events(evs: &[Value]) -> u64 {
@@ -486,7 +505,7 @@ fn hash_events(evs: &[Value]) -> u64 {
 
 impl<'a> Explore<'a> {
     pub fn new(scn: &'a Scenario, out: &'a mut Out) -> Self {
-        Explore { scn, out, seen: HashSet::new(), execs: 0, distinct: 0, max_steps_seen: 0, first: true, bases: vec![], keep_bases: 0 }
+        Explore { scn, out, seen: HashSet::new(), execs: 0, distinct: 0, max_steps_seen: 0, first: true, bases: vec![], keep_bases: 0, ops_lines: vec![], ops_seen: HashSet::new() }
     }
 
     /// run one schedule; emit its events unless an identical event sequence was emitted before
@@ -502,6 +521,12 @@ impl<'a> Explore<'a> {
         self.max_steps_seen = self.max_steps_seen.max(r.steps.len());
         if self.bases.len() < self.keep_bases && !r.runaway {
             self.bases.push(r.steps.clone());
+        }
+        if opts.keep_ops && !r.runaway {
+            let h = hash_events(&r.ops);
+            if self.ops_seen.insert(h) {
+                self.ops_lines.push(Value::Array(r.ops.clone()).to_string());
+            }
         }
         let mut evs = annotate(&r.log);
         for e in extra {
@@ -659,4 +684,86 @@ pub fn random_scenario(rng: &mut Rng, idx: usize) -> Scenario {
         setup: vec![],
         threads: vec![prog],
     }
+}
+
+
+/// run only the sequential setup of a scenario and dump memory, held blocks and programs
+pub fn dump_scenario(scn: &Scenario) -> Value {
+    let mut w = World::new(scn.frames, &scn.init, &scn.cls, scn.k);
+    let nthreads = scn.threads.len();
+    let mut helds: Vec<Held> = vec![vec![]; nthreads];
+    let mut setup_held: Held = vec![];
+    hook::set_mode(hook::OFF);
+    for op in &scn.setup {
+        let Some((cop, _)) = resolve(op, &setup_held) else { continue };
+        let res = exec(w.a(), &cop);
+        if res["res"] == "ok" {
+            if let Op::Get(o, ..) = cop {
+                let f = res["frame"].as_u64().unwrap() as usize;
+                match op {
+                    SymOp::GetFor { t, .. } => helds[*t].push(Some((f, o))),
+                    _ => setup_held.push(Some((f, o))),
+                }
+            }
+            if let SymOp::Put { idx, .. } = op {
+                setup_held[*idx] = None;
+            }
+        }
+    }
+    let _ = w.obs(true);
+    let progs: Vec<Value> = scn
+        .threads
+        .iter()
+        .map(|p| {
+            Value::Array(
+                p.iter()
+                    .map(|op| match *op {
+                        SymOp::Get { order, class, slot, target } => json!({"op":"get","order":order,"class":class,
+                            "slot":opt(slot),"target":opt(target)}),
+                        SymOp::Put { idx, class, slot } => json!({"op":"put","idx":idx + 1,"sub":99,"part":0,
+                            "class":class,"slot":opt(slot)}),
+                        SymOp::PutPart { idx, sub, part, class, slot } => json!({"op":"put","idx":idx + 1,"sub":sub,
+                            "part":part,"class":class,"slot":opt(slot)}),
+                        SymOp::PutRaw { frame, order, class, slot } => json!({"op":"putraw","frame":frame,
+                            "order":order,"class":class,"slot":opt(slot)}),
+                        SymOp::Drain => json!({"op":"drain"}),
+                        _ => json!({"op":"unsupported"}),
+                    })
+                    .collect(),
+            )
+        })
+        .collect();
+    json!({"name": scn.name, "frames": scn.frames, "cls": scn.cls, "k": scn.k, "th": TH, "ho": HO,
+        "nt": w.ntrees(), "nhuge": w.nhuge(),
+        "mem": crate::decode::dump_mem(&w),
+        "held": helds.iter().map(|h| h.iter().flatten().map(|b| json!([b.0, b.1])).collect::<Vec<_>>()).collect::<Vec<_>>(),
+        "progs": progs})
+}
+
+
+fn decode_op(lay: &crate::decode::Layout, o: &hook::OpRec) -> Value {
+    use crate::decode::*;
+    let Some((loc, byte)) = lay.loc(o.addr, o.size) else {
+        return json!({"t":o.t,"k":"stray","loc":["none"],"old":0,"new":0,"ok":o.ok,"addr":o.addr,"size":o.size});
+    };
+    let kind = loc[0].as_str().unwrap().to_string();
+    let k = match o.kind {
+        hook::K_LOAD => "load",
+        hook::K_STORE => "store",
+        hook::K_SWAP => "swap",
+        _ => "cas",
+    };
+    let dec = |v: u64| -> Value {
+        match kind.as_str() {
+            "row" => json!(bits_of(v << (byte * 8))),
+            "entry" => json!(dec_entry(v)),
+            "tree" => dec_tree(v),
+            _ => dec_slot(v),
+        }
+    };
+    if kind == "row" && o.size < 8 {
+        // sub-word compare-exchange (toggle_int): values are the bits of that sub-word, at row positions
+        return json!({"t":o.t,"k":"casb","loc":loc,"lo":byte * 8,"w":o.size * 8,"old":dec(o.old),"new":dec(o.new),"ok":o.ok});
+    }
+    json!({"t":o.t,"k":k,"loc":loc,"old":dec(o.old),"new":dec(o.new),"ok":o.ok})
 }
